@@ -10,7 +10,7 @@
    matA / vecB / the left inverse / the inverse Fisher matrix are INPUTS of the model (their
    correctness is C08's / C09's job, resp. they come from numerical kernels and are certificate-checked). *)
 From Coq Require Import List Arith Bool.
-From QV.Core Require Import OF Sums Mat.
+From QV.Core Require Import OF Sums Mat Cplx.
 From QV.Model Require Import C19_Expect Multinomial.
 Import ListNotations.
 
@@ -114,6 +114,12 @@ Definition fisher_total_def (eps : F) (m : nat) (items : list (F * vec * mat)) :
 Definition sqdist (n : nat) (x y : vec) : F := dot n (vsub x y) (vsub x y).
 Definition calc_se (n : nat) (pairs : list (vec * vec)) : F :=
   fold_right (fun xy acc => sqdist n (fst xy) (snd xy) + acc) 0 pairs.
+(* calc_se on COMPLEX arrays (density / Choi matrices, any shape, flattened): np.vdot conjugates its first argument; the list of
+   per-pair values is summed with dtype=float64, i.e. the real part is kept *)
+Definition cvdot_self (n : nat) (d : nat -> cplx F) : cplx F := @sumn (CF F) n (fun k => zmul (zconj (d k)) (d k)).
+Definition csqdist (n : nat) (x y : nat -> cplx F) : F := re (cvdot_self n (fun k => zsub (x k) (y k))).
+Definition calc_se_c (n : nat) (pairs : list ((nat -> cplx F) * (nat -> cplx F))) : F :=
+  fold_right (fun xy acc => csqdist n (fst xy) (snd xy) + acc) 0 pairs.
 Definition lsumF (l : list F) : F := fold_right (cadd F) 0 l.
 Definition mean (l : list F) : F := lsumF l / of_nat (length l).
 Definition var_ddof1 (l : list F) : F :=
